@@ -50,7 +50,12 @@ func VerifC17_BackToBack() {
 	vAssume(ok1)
 	used.reply = func(attempt int, req []byte) ([]byte, error) {
 		if attempt == 1 {
-			return vAnswer(k1, first, cc1, body1), nil
+			// the first answer comes in a session wrapper with arbitrary session ID and
+			// sequence number (nothing makes a BMC send null ones)
+			a := vAnswer(k1, first, cc1, body1)
+			copy(a[6:10], refPutLE32(vU32()))
+			copy(a[10:14], refPutLE32(vU32()))
+			return a, nil
 		}
 		return vAnswer(k2, cmdA, cc2, body2), nil
 	}
@@ -64,6 +69,7 @@ func VerifC17_BackToBack() {
 
 	vAssert(len(used.sent) == 2 && len(fresh.sent) == 1, "c17-one-datagram-per-command")
 	vAssert(refBytesEq(used.sent[1], fresh.sent[0]), "c17-same-request-bytes-as-on-a-fresh-connection")
+	vAssert(refLE32(used.sent[1][6:10]) == 0 && refLE32(used.sent[1][10:14]) == 0, "c09-sessionless-id-and-sequence-zero-after-any-reply")
 	vAssert((errA == nil) == (errB == nil), "c17-same-error-verdict-as-on-a-fresh-connection")
 	vAssert(codeA == codeB, "c17-same-completion-code-as-on-a-fresh-connection")
 	if errA == nil && errB == nil && cmdA.Response() != nil {
